@@ -241,6 +241,9 @@ func (r *Run) Finish(rule string) {
 		os.Exit(0)
 	}
 	root := Root()
+	if o := os.Getenv("VERIF_OUT"); o != "" {
+		root = o // seeded-fault runs write evidence and replays elsewhere
+	}
 	cov := map[string]any{}
 	for k, v := range r.cov {
 		cov[k] = v
